@@ -12,6 +12,10 @@ def parse_table(repo):
         vals = [int(x, 0) for x in m.group(2, 3, 4, 5)]
         opts = [o.strip() for o in m.group(6).split(',') if o.strip()]
         rows[name] = dict(flash_size=vals[0], ram_start=vals[1], ram_size=vals[2], eeprom_size=vals[3], opts=opts)
+    # vacuity guard: every `"Name" => Device {` of the table must have been understood, else the checks built on it are UNDECIDED
+    n_expected = len(re.findall(r'"\w+"\s*=>\s*Device\s*\{', src))
+    if len(rows) != n_expected or not rows:
+        raise ValueError('device table: %d rows found, %d understood (table reformatted? spec/device_tab.py needs to follow)' % (n_expected, len(rows)))
     return rows
 
 
